@@ -140,6 +140,8 @@ struct Tracker {
     offenders: BTreeSet<ProcessId>,
     /// requests in flight: pid -> creating?
     effective_closes: BTreeMap<ResourceId, usize>,
+    /// processes whose ProcessExited the environment has handled (repair of F10)
+    exited: BTreeSet<ProcessId>,
     /// counts handled events (finer than environment steps)
     clock: usize,
 }
@@ -530,7 +532,7 @@ fn check_env_step(
                     rs.iter().map(|(p, b)| format!("({p} {b})")).collect::<Vec<_>>().join(" ")
                 ))
             }
-            _ => None,
+            other => exited_pid(other).map(|p| format!("exited {p}")),
         };
         match l {
             Some(l) => {
@@ -754,6 +756,13 @@ fn check_env_step(
                         out.counters.push("transfer:to-terminated-process".into());
                     }
                 }
+                // repair of F10b: the target's termination has been reported (ProcessExited) — what
+                // it is handed now must be closed on arrival
+                if tr.exited.contains(target) {
+                    let one: BTreeSet<ProcessId> = [*target].into_iter().collect();
+                    account_cleanup(calls, &mut ci, tr, &one, &one, term_before, sleeping, step_no, "handed a resource after its ProcessExited", out);
+                    out.counters.push("deliver:to-exited-process(closed on arrival)".into());
+                }
             }
             Event::SpawnAction { captures, argument, .. } => {
                 // the new pid: the SpawnProcess command of this step that follows
@@ -808,10 +817,92 @@ fn check_env_step(
                 // ... of which the dead ones: a persistent process that sleeps between two lines is alive
                 // (worker-side truth, independent of the environment's own bookkeeping)
                 let reported: BTreeSet<ProcessId> = reported_all.iter().copied().filter(|p| !sleeping.contains(p)).collect();
+                account_cleanup(calls, &mut ci, tr, &reported_all, &reported, term_before, sleeping, step_no, "reported complete", out);
+                if !results.is_empty() && reported.is_empty() {
+                    out.counters.push("report:pending-only".into());
+                }
+            }
+            other => {
+                if let Some(p) = exited_pid(other) {
+                    let all: BTreeSet<ProcessId> = [p].into_iter().collect();
+                    let dead: BTreeSet<ProcessId> = all.iter().copied().filter(|q| !sleeping.contains(q)).collect();
+                    if dead.is_empty() {
+                        out.problems.push((
+                            "exit-report=sleeping-persistent-process".into(),
+                            format!("ProcessExited for the persistent process {p}, which is only asleep"),
+                            true,
+                        ));
+                    }
+                    if !tr.exited.insert(p) {
+                        out.problems.push(("exit-report=twice".into(), format!("ProcessExited for {p} a second time"), true));
+                    }
+                    account_cleanup(calls, &mut ci, tr, &all, &dead, term_before, sleeping, step_no, "reported exited", out);
+                    out.counters.push("exit-report".into());
+                }
+            }
+        }
+    }
+    // leftover calls nobody accounted for
+    while ci < calls.len() {
+        match &calls[ci] {
+            Call::Close { rid, .. } => out.problems.push((
+                "cleanup=wrong-process".into(),
+                format!("close_resource({rid}) not attributable to any ProcessResults of this step (owner {:?})", tr.owner.get(rid)),
+                true,
+            )),
+            Call::Execute { pid, kind, rid, .. } => out.problems.push((
+                format!("exec=unrequested kind={kind}"),
+                format!("execute({pid}, {kind} {rid}) without a matching EffectRequest"),
+                true,
+            )),
+            _ => {}
+        }
+        ci += 1;
+    }
+    // the environment's map must be the ownership the property describes (creator, then the last
+    // recipient; dropped when the owner's termination is reported)
+    let spec: Vec<(ResourceId, ProcessId)> = tr.owner.iter().map(|(r, p)| (*r, *p)).collect();
+    if spec != own_real {
+        out.problems.push((
+            "ownership=map-differs-from-property".into(),
+            format!("after env step {step_no}: resource_ownership = {own_real:?}, ownership per the property = {spec:?}"),
+            true,
+        ));
+    }
+    for (rid, n) in &tr.effective_closes {
+        if *n > 1 {
+            out.problems.push(("close=double-effective".into(), format!("resource {rid} effectively closed {n} times"), true));
+        }
+    }
+}
+
+/// The oracle's view of one cleanup: the next `close_resource` calls that belong to processes in
+/// `all` (the processes this event names), of which `dead` are really dead (worker-side truth).
+/// Everything a dead process owns must be closed now, nothing may be closed for a live owner, no id
+/// twice.
+#[allow(clippy::too_many_arguments)]
+fn account_cleanup(
+    calls: &[Call],
+    ci_ref: &mut usize,
+    tr: &mut Tracker,
+    reported_all: &BTreeSet<ProcessId>,
+    reported: &BTreeSet<ProcessId>,
+    term_before: &BTreeSet<ProcessId>,
+    sleeping: &BTreeSet<ProcessId>,
+    step_no: usize,
+    why: &str,
+    out: &mut Outcome,
+) {
+    let mut ci = *ci_ref;
+    {
                 // the closes of this event: the following close_resource calls the oracle attributes
                 // to a process reported in this message (anything else is left over and flagged below)
                 let mut mine: Vec<(ResourceId, bool)> = vec![];
                 while let Some(Call::Close { rid, effective }) = calls.get(ci) {
+                    // one cleanup passes an id at most once: a repetition belongs to the next event
+                    if mine.iter().any(|(r, _)| r == rid) {
+                        break;
+                    }
                     match tr.owner.get(rid) {
                         Some(o) if reported_all.contains(o) => {
                             mine.push((*rid, *effective));
@@ -820,15 +911,15 @@ fn check_env_step(
                         _ => break,
                     }
                 }
-                for p in reported_all.difference(&reported) {
+                for p in reported_all.difference(reported) {
                     out.counters.push(format!("report:sleeping-persistent-process-{p}"));
                 }
-                for p in &reported {
+                for p in reported {
                     tr.reported.entry(*p).or_insert(step_no);
                     if !term_before.contains(p) {
                         out.problems.push((
                             "report=before-termination".into(),
-                            format!("process {p} reported complete but it had not terminated before this environment step"),
+                            format!("process {p} {why} but it had not terminated before this environment step"),
                             true,
                         ));
                     }
@@ -844,7 +935,7 @@ fn check_env_step(
                     if !mine_set.contains(&rid) {
                         out.problems.push((
                             "cleanup=missed".into(),
-                            format!("process {:?} was reported complete but its resource {rid} was not passed to close_resource", tr.owner.get(&rid)),
+                            format!("process {:?} was {why} but its resource {rid} was not passed to close_resource", tr.owner.get(&rid)),
                             true,
                         ));
                     }
@@ -881,45 +972,24 @@ fn check_env_step(
                     tr.owner.remove(&rid);
                     tr.cleaned.insert(rid);
                 }
-                if !results.is_empty() && reported.is_empty() {
-                    out.counters.push("report:pending-only".into());
-                }
-            }
-            _ => {}
-        }
+
     }
-    // leftover calls nobody accounted for
-    while ci < calls.len() {
-        match &calls[ci] {
-            Call::Close { rid, .. } => out.problems.push((
-                "cleanup=wrong-process".into(),
-                format!("close_resource({rid}) not attributable to any ProcessResults of this step (owner {:?})", tr.owner.get(rid)),
-                true,
-            )),
-            Call::Execute { pid, kind, rid, .. } => out.problems.push((
-                format!("exec=unrequested kind={kind}"),
-                format!("execute({pid}, {kind} {rid}) without a matching EffectRequest"),
-                true,
-            )),
-            _ => {}
-        }
-        ci += 1;
+    *ci_ref = ci;
+}
+
+/// `Event::ProcessExited { process_id }` (repair of F10), recognised through its Debug form so that
+/// this harness builds against trees with and without the variant.
+fn exited_pid(e: &Event<E>) -> Option<ProcessId> {
+    if matches!(
+        e,
+        Event::SpawnAction { .. } | Event::DeliverAction { .. } | Event::ProcessResults { .. } | Event::EffectRequest { .. } | Event::AwaitAction { .. }
+    ) {
+        return None;
     }
-    // the environment's map must be the ownership the property describes (creator, then the last
-    // recipient; dropped when the owner's termination is reported)
-    let spec: Vec<(ResourceId, ProcessId)> = tr.owner.iter().map(|(r, p)| (*r, *p)).collect();
-    if spec != own_real {
-        out.problems.push((
-            "ownership=map-differs-from-property".into(),
-            format!("after env step {step_no}: resource_ownership = {own_real:?}, ownership per the property = {spec:?}"),
-            true,
-        ));
-    }
-    for (rid, n) in &tr.effective_closes {
-        if *n > 1 {
-            out.problems.push(("close=double-effective".into(), format!("resource {rid} effectively closed {n} times"), true));
-        }
-    }
+    let d = format!("{e:?}");
+    let rest = d.strip_prefix("ProcessExited")?;
+    let digits: String = rest.chars().filter(|c| c.is_ascii_digit()).collect();
+    digits.parse().ok()
 }
 
 /// Was `rid` open when the Execute just before `ci` ran? (an async kind on a closed id fails at
